@@ -285,7 +285,8 @@ pub fn run(tier: Tier) -> Report {
         });
     }
     // inject_global_value
-    let values = ["null", "true", "false", "0", "1.5", "\"s\"", "[1,2]", "{\"a\":1}"];
+    // the last ones look like the description of a require mode, which rule properties can also hold
+    let values = ["null", "true", "false", "0", "1.5", "\"s\"", "[1,2]", "{\"a\":1}", "[1]", "[0]", "[1,false]", "{\"name\":\"path\"}", "{\"name\":\"luau\",\"a\":{\"b\":\"c\"}}", "\"path\"", "[\"path\"]"];
     for v in values {
         let jv: serde_json::Value = serde_json::from_str(v).unwrap();
         let mut bodies: Vec<String> = vec![
@@ -370,7 +371,26 @@ pub fn run(tier: Tier) -> Report {
             max_states: 100,
             env_seed,
             env_out: behave::env_none(),
-            classify: plain_classifier(),
+            classify: {
+                // bug model of `inject-value-read-as-a-require-mode`: a value that darklua's RequireMode type can read is
+                // read as one and written back with that type's own fields; the seed run with G preset to that
+                // re-serialisation behaves exactly like the output
+                let as_mode: Option<serde_json::Value> = match json5::from_str::<darklua_core::rules::RulePropertyValue>(v) {
+                    Ok(darklua_core::rules::RulePropertyValue::RequireMode(m)) => serde_json::to_value(&m).ok().filter(|m| *m != jv),
+                    _ => None,
+                };
+                match as_mode {
+                    None => plain_classifier(),
+                    Some(mode_value) => Arc::new(move |ctx: &FailCtx| {
+                        let mv = mode_value.clone();
+                        let predicted = crate::luaref::observe(ctx.seed, crate::luaref::Mode::Luau, crate::luaref::DEFAULT_FUEL, &move |it: &mut Interp| it.set_global("G", json_to_value(&mv)));
+                        if predicted.same_behaviour(ctx.actual) {
+                            return Some("inject-value-read-as-a-require-mode".to_owned());
+                        }
+                        super::findings::classify_behaviour("C17", ctx)
+                    }),
+                }
+            },
             extra_gens: vec![],
             judge_root: false,
         });
